@@ -115,6 +115,12 @@ def with_assumption(assume: Dict[T, bool], c: T, value: bool) -> Dict[T, bool]:
         if (atom.a[0] == "and" and v) or (atom.a[0] == "or" and not v):
             for x in atom.a[1]:
                 out = with_assumption(out, x, v)
+        else:
+            # unit propagation: (a and b) false with a known true => b false; (a or b) true with a known false => b true
+            decided = atom.a[0] == "or"
+            rest = [x for x in atom.a[1] if assume_lookup(out, x) is not (not decided)]
+            if len(rest) == 1 and assume_lookup(out, rest[0]) is None:
+                out = with_assumption(out, rest[0], decided)
     return out
 
 
@@ -130,7 +136,11 @@ def is_stringy(t: T) -> bool:
     if t.op == "bin" and t.a[0] == "+":
         return is_stringy(t.a[1]) or is_stringy(t.a[2])
     if t.op == "ite":
-        return is_stringy(t.a[1]) and is_stringy(t.a[2])
+        # one textual side is enough: the other side is then an opaque piece of text (a hole)
+        return is_stringy(t.a[1]) or is_stringy(t.a[2])
+    if t.op == "call" and t.a[0].op == "attr" and t.a[0].a[1] in ("ljust", "rjust", "center", "strip", "lower", "upper",
+                                                                  "format", "join", "strftime", "replace"):
+        return True
     return False
 
 
@@ -192,11 +202,54 @@ def _flat(t: T, assume, out: List[Seg]) -> None:
     if t.op == "call" and t.a[0] == T("builtin", ("str",)) and len(t.a[1]) == 1 and is_stringy(t.a[1][0]):
         _flat(t.a[1][0], assume, out)
         return
+    # ''.join(<list built by (conditional) appends>)  ==  concatenation of the (conditional) pieces
+    if t.op == "call" and t.a[0] == T("attr", (const(""), "join")) and len(t.a[1]) == 1 and not t.a[2]:
+        items = listify(t.a[1][0])
+        if items is not None:
+            for elem, conds in items:
+                segs = flatten(elem, assume)
+                for c in reversed(conds):
+                    tv = assume_lookup(assume, c[0])
+                    if tv is None:
+                        atom, pol = norm_bool(c[0])
+                        want = c[1] if pol else not c[1]
+                        segs = [("alt", resolve(atom, assume), segs, [])] if want else [("alt", resolve(atom, assume), [], segs)]
+                    elif tv != c[1]:
+                        segs = []
+                out.extend(segs)
+            return
     out.append(("hole", resolve(t, assume), "", None))
 
 
+def listify(t: T):
+    """[(element term, ((cond, polarity), ...))] for a list built by literals, (conditional) appends and concatenation;
+    None when the construction is not of that kind."""
+    if t.op == "list":
+        if any(x.op == "star" for x in t.a[0]):
+            return None
+        return [(x, ()) for x in t.a[0]]
+    if t.op == "mut" and t.a[1] == "append" and len(t.a[2]) == 1:
+        base = listify(t.a[0])
+        return None if base is None else base + [(t.a[2][0], ())]
+    if t.op == "mut" and t.a[1] == "extend" and len(t.a[2]) == 1:
+        base, more = listify(t.a[0]), listify(t.a[2][0])
+        return None if base is None or more is None else base + more
+    if t.op == "bin" and t.a[0] == "+":
+        l, r = listify(t.a[1]), listify(t.a[2])
+        return None if l is None or r is None else l + r
+    if t.op == "ite":
+        a, b = listify(t.a[1]), listify(t.a[2])
+        if a is None or b is None:
+            return None
+        n = 0
+        while n < len(a) and n < len(b) and a[n] == b[n]:
+            n += 1
+        return a[:n] + [(e, ((t.a[0], True),) + cd) for e, cd in a[n:]] + [(e, ((t.a[0], False),) + cd) for e, cd in b[n:]]
+    return None
+
+
 def _ite_stringy(t: T) -> bool:
-    return t.op == "ite" and (is_stringy(t.a[1]) or _ite_stringy(t.a[1])) and (is_stringy(t.a[2]) or _ite_stringy(t.a[2]))
+    return t.op == "ite" and (is_stringy(t.a[1]) or _ite_stringy(t.a[1]) or is_stringy(t.a[2]) or _ite_stringy(t.a[2]))
 
 
 def resolve(t: T, assume: Dict[T, bool]) -> T:
